@@ -1353,7 +1353,8 @@ def check_c13(run):
     for i in range(30 if run.tier == "quick" else 400):
         r = random.Random(run.seed * 31 + i)
         graphs.append(specgen.chain_spec(r, r.choice([14, 20, 40]), r.choice([12, 13, 20])))
-    texts = [specgen.print_spec(d) for d in graphs]
+    spans = [[] for _ in graphs]
+    texts = [specgen.print_spec(d, bt_spans=sp) for d, sp in zip(graphs, spans)]
     try:
         obs = xv.run_front(texts, "c13")
     except TieBroken as e:
@@ -1361,6 +1362,16 @@ def check_c13(run):
         return
     sample = obs if len(obs) <= 2500 else [obs[i] for i in sorted(rng.sample(range(len(obs)), 2500))]
     k_front(run, sample, "c13")
+    # K5 on a sample: the dependency graphs as Source declaration lists (premises of C12_ast, whose
+    # third clause is C13_reach)
+    try:
+        idx = sorted(rng.sample(range(len(obs)), min(len(obs), 400)))
+        cases = [(obs[i], specgen.sdecl_terms(graphs[i], spans[i], xv.coq_text)) for i in idx]
+        n5, d5 = xv.k5(cases, "c13")
+        run.oblige("K5: Source.tree_of = erased parse tree, decl_okb, Ast of item_of = real Ast on %d dependency graphs" % n5,
+                   not d5, ("code %d on: %s" % (d5[0][1], cases[d5[0][0]][0]["text"][:300])) if d5 else "")
+    except TieBroken as e:
+        run.oblige("K5 runs", False, str(e))
     for o, decls in zip(obs, graphs):
         a = o["ast"]
         if a["outcome"] != "ok":
